@@ -295,9 +295,17 @@ class Scenario:
         try:
             sp = os.path.join(d, "script")
             open(sp, "w").write("\n".join(self.lines) + "\n")
-            env = {"OVNI_TRACEDIR": os.path.join(d, "final")}
+            find_ = os.path.join(d, "final")
+            if "-longpath" in self.name:
+                # a trace directory whose path is more than 600 characters long (legal: PATH_MAX is 4096)
+                find_ = os.path.join(d, *(["p" * 100] * 6), "final")
+            env = {"OVNI_TRACEDIR": find_}
             if self.mode == "tmp":
                 env["OVNI_TMPDIR"] = os.path.join(d, "tmp")
+            if self.name.endswith("-alias"):
+                # OVNI_TMPDIR is another name (a symbolic link) of the trace directory itself
+                os.makedirs(find_, exist_ok=True)
+                os.symlink(find_, os.path.join(d, "tmp"))
             if self.name.endswith("-stale"):
                 # the final thread directory still holds the finished (shorter) stream of an earlier run with
                 # the same loom / pid / tid: it must not vouch for the new run
@@ -332,7 +340,7 @@ class Scenario:
             elif self.name.endswith("-reuse"):
                 calls = []                         # stopped before the thread under test started
             tmpd = os.path.join(d, "tmp") if self.mode == "tmp" else None
-            find = os.path.join(d, "final")
+            find = find_
             state = disk_state(tmpd, find)
             # ovniemu writes its output into the directory: run it on copies
             ev = {}
@@ -432,7 +440,7 @@ def main(pid, tier):
     ck.phase("tlc")
     names = ["small-direct", "small-tmp", "boundary-tmp", "one-direct", "one-tmp", "boundary-direct", "bigmeta-tmp",
              "small-tmp-pre", "one-direct-pre", "attr-tmp", "small-tmp-stale", "small-direct-stale",
-             "small-tmp-reuse", "small-direct-reuse"]
+             "small-tmp-reuse", "small-direct-reuse", "small-tmp-longpath-stale", "small-tmp-alias"]
     if tier == "thorough":
         names += ["big-tmp", "big-direct", "bigmeta-direct", "attr-direct"]
     execs = []
